@@ -217,8 +217,10 @@ func c11Gadgets() []c11Gadget {
 				}
 				return rapid.IntRange(0, bits).Draw(t, "cnt")
 			},
-			build: func(a []expr.Expr, w expr.Width, k int) expr.Expr { return exprtools.MaskBits(a[0], exprtools.BitCnt(k), w) },
-			ref:   func(v []*big.Int, w expr.Width, k int) *big.Int { return new(big.Int).Mod(v[0], pow2bits(uint(k))) }},
+			build: func(a []expr.Expr, w expr.Width, k int) expr.Expr {
+				return exprtools.MaskBits(a[0], exprtools.BitCnt(k), w)
+			},
+			ref: func(v []*big.Int, w expr.Width, k int) *big.Int { return new(big.Int).Mod(v[0], pow2bits(uint(k))) }},
 		{name: "NewWidthGadget", arity: 1, resW: sameW,
 			build: func(a []expr.Expr, w expr.Width, _ int) expr.Expr { return exprtools.NewWidthGadget(a[0], w) },
 			ref:   func(v []*big.Int, w expr.Width, _ int) *big.Int { return v[0] }},
